@@ -20,8 +20,16 @@ RULE = ("Triangulated surfaces: well-shaped (min angle >= 8 deg) closed (tetra/o
         "state option (nothing cached / corner angles cached, which switches the cotangent formula) x neighbourhood sorting on/off x "
         "a shuffled order of the operator groups on one shared mesh object (so cached area / cotan attributes are met in every order); every "
         "returned matrix is overwritten in place right after it was read, and in 1/3 of the cases all groups are run a second time on the "
-        "same mesh (after another mesh object was used); the custom adjacency dict has a shuffled insertion order and, in half of the cases, numpy float32 / uint8 values; calls that "
-        "raise (bad weights name, incomplete dict) precede the checked ones. Further per-case draws: anisotropic stretch, translation by "
+        "same mesh (after another mesh object was used); the custom adjacency dict has a shuffled insertion order and, in half of the cases, numpy float32 / uint8 values; in half of the cases some of "
+        "its weights are EXACTLY ZERO (labels custom-weights:some-zero / all-zero / no-zero): either signed weights of which about a third "
+        "vanish (0.0, -0.0, int 0, False, numpy zero) or a 0/1 mask (python bools / ints / floats / numpy, label 0/1-mask) - the expected matrix "
+        "then has no non-zero entry on those edges; calls that "
+        "raise (bad weights name, incomplete dict) precede the checked ones. CALL STYLE (one per case, label call-style=..., a different "
+        "one in the second pass): every operator call hands its documented parameters over as kw-sparse (only the non-default options, by "
+        "keyword) / positional (by position in the documented order up to the last non-default option, defaults in between spelled out) / "
+        "positional-full (all of them by position, trailing ones at their documented default) / kw-all (all by keyword, mesh= included) / "
+        "mixed (seeded positional prefix, rest by keyword); the mass-matrix format is requested together with a seeded inverse / sqrt "
+        "combination and compared with the entrywise transform of the plain matrix. Further per-case draws: anisotropic stretch, translation by "
         "1e3..1e6 x the mean edge length (tolerance = max(1e-9, 64 eps x offset/size)), face / cell rows as list, tuple, numpy int64 / "
         "int32 / int16 / uint8 rows or through mesh.from_arrays, library switches config.complete_edges_from_faces=False (1/6: only the "
         "face-based operators and the empty edge set are checked) and display_duplicate_attribute_warning, a cached SPARSE area / "
@@ -59,6 +67,14 @@ ASSUMPTIONS = ["surfaces are oriented manifold triangulations with min angle >= 
                "the dual operators and SurfaceConnectionVertices are not called. config.complete_faces_from_cells=False is NOT drawn: the "
                "unchanged library cannot even construct a VolumeMesh under it (KeyError in RawMeshData._generate_cell_faces) - reported",
                "float32 vertex coordinates are not generated (the library keeps the dtype and computes in single precision)",
+               "the documented signature of an operator is its def line + Args section: parameter names, their order and their defaults "
+               "(laplacian* (mesh, cotan=True, connection=None, order=4), gradient (mesh, conn, as_complex=True), area_weight_matrix / "
+               "volume_weight_matrix[_cells] (mesh, inverse=False, sqrt=False, format='csc'), area_weight_matrix_faces (mesh, inverse=False, "
+               "format='csc'), area_weight_matrix_edges / cotan_edge_diagonal (mesh, inverse), adjacency_matrix (mesh, weights='one'), "
+               "vertex_to_edge_operator (mesh, oriented=False)); passing them by position in that order, by keyword, or a documented "
+               "default explicitly is a valid call. New parameters appended after them are not noticed",
+               "custom adjacency weights: any real number is a weight, zero included (python bool / int / float or numpy scalar); an "
+               "explicit stored 0 and an absent entry are both accepted for a zero weight",
                "non-orientable / inconsistently oriented surfaces (Moebius strip) are outside the domain",
                "an unreferenced trailing vertex is in the domain of the |V|-sized operators (laplacian, graph operators, gradient); "
                "mass matrices are not checked on such meshes (zero mass is outside 'positive diagonal')"]
